@@ -31,6 +31,7 @@ type histProfile struct {
 	Scripts         bool       // insert a focused per-validator action sequence (one validator, one action per block)
 	Batches         bool       // insert blocks in which several validators perform the same action together
 	ScriptTemplates [][]string // when set: the validator script always uses one of these action sequences ("x!" = short time step before x, "burn1" = burn request of 100%)
+	OwnerBias       int        // N>0: governance messages are sent by the current owner (resolved at execution) in N of N+1 cases
 	Anchor          bool       // in half of the histories one genesis validator is never accused, absent, unstaked or burned, so that the set rarely empties
 	seed            int
 }
@@ -234,6 +235,9 @@ func genTx(pr *histProfile) func(t *rapid.T) hTx {
 		case "rawmut":
 			tx.Str = rapid.SampledFrom([]string{"truncate", "flip", "flip", "splice", "lenprefix", "append"}).Draw(t, "rawmutkind")
 			tx.Amt = int64(rapid.IntRange(0, 400).Draw(t, "rawmutpos"))
+		}
+		if pr.OwnerBias > 0 && (tx.Kind == "param" || tx.Kind == "dao" || tx.Kind == "upgrade") {
+			tx.AsOwner = rapid.IntRange(0, pr.OwnerBias).Draw(t, "asowner") != 0
 		}
 		if pr.WrongSigner > 0 && rapid.IntRange(0, pr.WrongSigner-1).Draw(t, "wrongsigner") == 0 {
 			tx.SignWith = rapid.IntRange(0, simPoolSize-1).Draw(t, "signwith")
